@@ -176,8 +176,6 @@ Proof.
 Qed.
 
 (* ---- the decision replaceEntities takes, as a function of the bytes from '&' up to the first stopper ----- *)
-Inductive decision := Keep (d : Z) | Repl (off : Z) (r : list Z).
-
 Lemma slice_shift0 {A} (P l : list A) hi : slice (P ++ l) (len P) (len P + hi) = slice l 0 hi.
 Proof. replace (len P) with (len P + 0) at 1 by lia. apply slice_shift. lia. Qed.
 
@@ -187,47 +185,9 @@ Section Decide.
 
   (* lb: the look-behind from the '&' found an ampersand sequence (or was too far to tell) *)
   Variable lb : bool.
-
-  Definition dguard (off : Z) (r : list Z) : decision :=
-    match r with
-    | c :: _ => if cont_start c && lb then Keep off else Repl off r
-    | [] => Repl off r
-    end.
-
-  Definition dfinish (u : list Z) (off : Z) (r : list Z) : decision :=
-    if (off <? len u) && (getz u off =? 59) && (2 <? off + 1) then
-      match r with
-      | [c] =>
-          match lookup_byte rm c with
-          | Some q => if list_eqb q (slice u 0 (off + 1)) then Keep off else dguard off q
-          | None =>
-              if c =? 38 then
-                let k := off + 1 in
-                if (k <? len u) && (is_alnum (getz u k) || (getz u k =? 35)) then Keep k else dguard off r
-              else dguard off r
-          end
-      | _ => dguard off r
-      end
-    else Keep 0.
-
-  Definition decide (u : list Z) : decision :=
-    if getz u 1 =? 35 then
-      if getz u 2 =? 120 then
-        let '(nd, c) := scan_hex (skipz 3 u) 0 in
-        let off := 3 + nd in
-        if (off <=? 3) || (10000 <=? c) then Keep (off - 1)
-        else dfinish u off (if c <? 128 then [byte_of c] else 38 :: 35 :: dec_digits c ++ [59])
-      else
-        let '(nd, c) := scan_dec (skipz 2 u) 0 in
-        let off := 2 + nd in
-        if (off <=? 2) || (128 <=? c) then Keep (off - 1) else dfinish u off [byte_of c]
-    else
-      let off := 1 + scan_name (skipz 1 u) 0 in
-      if (off =? 1) || negb (getz u off =? 59) then Keep 0
-      else match lookup_name em (slice u 1 off) with
-           | None => Keep off
-           | Some r => dfinish u off r
-           end.
+  Notation dguard := (dguard lb).
+  Notation dfinish := (dfinish rm lb).
+  Notation decide := (decide em rm lb).
 
   Definition apply_dec (P l : list Z) (d : decision) : result (list Z * Z) :=
     match d with
